@@ -256,6 +256,51 @@ def r10_read_loops(ctx, reach):
     ctx.floor("R20.10", "loops around a plain read", n, 6)
 
 
+WIDE_NUMBER_SOURCES = ("::parse", "::from_str", "::get_u32", "::get_u64", "::get_i32", "::get_i64", "u32::from_be_bytes", "u64::from_be_bytes",
+                       "u32::from_le_bytes", "u64::from_le_bytes", "usize::from_be_bytes", "::get_u32_le", "::get_u64_le", "::from_str_radix")
+
+
+def r11_counted_loops(ctx, reach):
+    """no loop whose trip count is a number the peer chose from a 32-bit (or wider) space, unless a comparison bounds it first:
+    such a loop runs synchronously inside the task that parses the input (4 * 10^9 iterations = minutes of a pinned worker)"""
+    from engine.anl.casts import guard_bounds
+    n = 0
+    for key in sorted(reach):
+        body = ctx.P.bodies[key]
+        if key in ctx.P.inlined_away or key.startswith(("util::cert", "util::tls", "anytls_")):
+            continue
+        o = None
+        for bi in sorted(body.reachable()):
+            for st in body.blocks[bi]["stmts"]:
+                if st["s"] != "assign" or st["rv"]["r"] != "aggregate":
+                    continue
+                k = st["rv"]["kind"]
+                if k.get("a") != "adt" or k.get("adt") not in ("std::ops::Range", "std::ops::RangeInclusive") or len(st["rv"]["ops"]) != 2:
+                    continue
+                o = o or ctx.origins(body)
+                end = o.of_operand(st["rv"]["ops"][1])
+                src = [s_ for s_ in subterms(end) if is_call_term(s_, *WIDE_NUMBER_SOURCES)]
+                for s_ in subterms(end):
+                    if isinstance(s_, tuple) and s_ and s_[0] == "var" and len(s_) > 2:
+                        src += [x for x in subterms(o.init_of(s_[2])) if is_call_term(x, *WIDE_NUMBER_SOURCES)]
+                if not src:
+                    continue
+                # is the range iterated (a for loop / iterator chain), not used to slice?
+                dst = st["place"]["local"]
+                iterated = any((c.norm or "").endswith(("::into_iter", "::next", "::map", "::for_each", "::filter", "::fold", "::rev", "::step_by", "::try_for_each", "::all", "::any")) and
+                               any(a.get("place", {}).get("local") == dst for a in c.args if a["o"] in ("move", "copy")) for c in body.calls(True))
+                if not iterated:
+                    continue
+                n += 1
+                cfg, conds = ctx.cfg(body), ctx.conds(body)
+                lo, hi, used = guard_bounds(body, cfg, conds, o, end, bi)
+                ctx.ob("R20.11", "%s|counted-loop#%d" % (ctx.P.owner(key), n), hi is not None, "%s:%s" % (st["span"].get("file", "?"), st["span"]["line"]),
+                       "the trip count `%s` is bounded by a dominating comparison (<= %s)" % (fmt(end)[:50], hi) if hi is not None else
+                       "a loop runs `%s` times, a number taken from input (%s) with no upper bound checked first: one frame / scheme carrying 4294967295 pins the parsing task (and a runtime worker) for minutes; "
+                       "the session reads nothing meanwhile" % (fmt(end)[:60], src[0][1].split("::")[-1]))
+    ctx.ob("R20.11", "input-reachable-set:no-unbounded-counted-loop", True, "", "%d counted loops over input-derived wide integers examined" % n, nontrivial=False)
+
+
 def r8_inventory(ctx, reach):
     total = 0
     kinds = {}
@@ -282,10 +327,12 @@ def run(ctx):
     C17.r3_bounded_header(ctx)
     C17.r3b_scan_window(ctx)          # a request whose terminator straddles two reads must not wedge its connection
     from . import C09
+    C09.r1_locks(ctx)                 # no input (duplicate SYN, refused open) can make the dispatch task wait on a lock it holds itself
     C09.r2_flag_writer(ctx)           # a fatal alert must tear the session down (flag set by close() only)
     C09.r3_recv_exits(ctx)            # garbled / truncated input ends the session cleanly on every exit of the receive loop
     r6_containment(ctx)
     r7_progress(ctx)
     r9_str_index(ctx, reach)
     r10_read_loops(ctx, reach)
+    r11_counted_loops(ctx, reach)
     r8_inventory(ctx, reach)
